@@ -2,6 +2,7 @@
 C06 — every traversal visits exactly the reachable in-universe vertices, once each.
 Case: see eglib/trav.py
 """
+from eglib import h
 from eglib import trav
 from eglib.driver import Violation, require
 
@@ -146,10 +147,10 @@ def _check_on(S, case):
         for name, fn in (("bft", B.bft), ("dft_recursive", D.dft_recursive), ("dft_iterative", D.dft_iterative)):
             for mk in (S.fresh_ff, S.fresh_method_ff):
                 try:
-                    fn(S.uni, S.vs[S.start], direction_sensitive=S.d, unknown_handling=S.u, ff_via=mk(accept_all=True))
+                    fn(S.uni, S.vs[S.start], **h.kw(S.d, S.u), ff_via=mk(accept_all=True))
                 except NotImplementedError:
                     pass
-                again = S.idx(fn(S.uni, S.vs[S.start], direction_sensitive=S.d, unknown_handling=S.u, ff_via=mk()))
+                again = S.idx(fn(S.uni, S.vs[S.start], **h.kw(S.d, S.u), ff_via=mk()))
                 require(set(again) == R, "reach-set-mismatch", f"{name} after a call with another filter object (caching on): visited {sorted(again, key=str)}, reachable {sorted(R)}")
     nt = False
     if R is not None and len(R) >= 3:
